@@ -255,7 +255,9 @@ pub fn generate(seed: u64, profile: &Profile) -> Scenario {
     let mut resps: Vec<usize> = Vec::new();
     let mut sealed: BTreeSet<usize> = BTreeSet::new();
 
-    let n_events = rng.range(3, profile.max_events);
+    // one run in eight is a long history
+    let long = Rng::derive(seed, "swarm", 0).chance(1, 8);
+    let n_events = rng.range(3, if long { profile.max_events * 2 } else { profile.max_events });
     let via = |rng: &mut Rng| if rng.chance(1, 3) { Via::Source } else { Via::Builder };
     for i in 0..n_events {
         let choice = if i == 0 || slots.is_empty() { 6 } else { rng.weighted(&profile.weights) };
